@@ -41,6 +41,9 @@ class Columns:
             return F(Lin({}, self.consts[col]))
         return F(self.it.ctx.var(("c" if row == 0 else "n") + str(col)))
 
+    def column(self, col):
+        return [self.cell(col, 0), self.cell(col, 1)]
+
 
 def natives():
     def n_get(it, a, d, m):
@@ -49,7 +52,7 @@ def natives():
 
     def n_get_column(it, a, d, m):
         cm = pm.deref(a[0])
-        return [cm.cell(a[1].v, 0), cm.cell(a[1].v, 1)]
+        return cm.column(a[1].v)
 
     def n_arr_eq(it, a, d, m):
         x, y = pm.deref(a[0]), pm.deref(a[1])
